@@ -5,7 +5,10 @@ from lib.checkdef import default_replay_cmd, run_property
 def run(tier, seed):
     return run_property(
         "C05", tier, seed, level="other",
-        deductive=[("c05_ops", None), ("c13_inplace", r"^C05\.inplace")],
+        deductive=[("c05_ops", None), ("c13_inplace", r"^C05\.inplace"),
+                   # the augmented-assignment dunders and item assignment hand their operands to _in_place_op unchanged (an operand that is a tensor
+                   # of the same view family must reach the placeholder substitution as that tensor, not as a detached copy)
+                   ("c11_dunder", r"^C11\.dunder\.(__i|__setitem__)")],
         bounded=[("graph_bounded.py", ["--check", "C05"])],
         trusted=["NumPy's own in-place / view semantics are the specification of the functional twin", "pointwise-real axioms (pyvc/realdom.py) for the mask algebra"],
         assumptions=[
